@@ -230,6 +230,41 @@ pub fn case_writer(ctx: &mut Ctx, max_write: &str, max_keep: &str, keep_age: &st
     ctx.emit("c19w", &[max_write, max_keep, keep_age, existing, pads], &obs);
 }
 
+/// c19a: steady traffic (an event every `gap` ms, never a pause) with a per-file age limit: files are rotated by age all the
+/// same — no file holds more events than fit its age (plus a little slack for timing).
+pub fn case_age(ctx: &mut Ctx, age_ms: &str, gap_ms: &str, n: &str) {
+    let (age, gap, nn): (u64, u64, u64) = (age_ms.parse().unwrap(), gap_ms.parse().unwrap(), n.parse().unwrap());
+    let obs = guard(move || {
+        let dir = fresh_dir("c19a");
+        let w = LogFileWriter::new_builder(dir.join("srv.log"), 10_000_000).with_max_write_age(Duration::from_millis(age));
+        let sender = match w.start_writer_thread() { Ok(s) => s, Err(_) => return "start-failed".to_string() };
+        for k in 1..=nn {
+            if sender.send(LogEvent::new(Level::Info, vec![tag("n", k)])).is_err() { return "writer-stopped".to_string(); }
+            std::thread::sleep(Duration::from_millis(gap));
+        }
+        drop(sender);
+        std::thread::sleep(Duration::from_millis(150));
+        let mut per_file: Vec<Vec<u64>> = Vec::new();
+        for e in std::fs::read_dir(&dir).unwrap().filter_map(|e| e.ok()) {
+            let text = String::from_utf8_lossy(&std::fs::read(e.path()).unwrap_or_default()).to_string();
+            per_file.push(text.lines().filter_map(|l| l.find("\"n\":").map(|p| l[p + 4..].chars().take_while(|c| c.is_ascii_digit()).collect::<String>().parse().unwrap_or(0))).collect());
+        }
+        let _ = std::fs::remove_dir_all(&dir);
+        per_file.retain(|f| !f.is_empty());
+        per_file.sort();
+        let all: Vec<u64> = per_file.iter().flatten().copied().collect();
+        let complete = all == (1..=nn).collect::<Vec<u64>>();
+        let most = per_file.iter().map(|f| f.len() as u64).max().unwrap_or(0);
+        format!("complete_in_order={} within_age={}", u8::from(complete), u8::from(most <= age / gap + 4))
+    });
+    ctx.emit("c19a", &[age_ms, gap_ms, n], &obs);
+}
+
+pub fn run_age(ctx: &mut Ctx) {
+    if ctx.mine(0) { case_age(ctx, "1000", "100", "32"); }
+    if ctx.mine(1) { case_age(ctx, "1000", "50", "50"); }
+}
+
 pub fn run(ctx: &mut Ctx) {
     let mut rng = Rng::new(ctx.seed.wrapping_add(19));
     let mut idx = 0u64;
